@@ -51,3 +51,29 @@ example : fitswcsLinear (skyLin (fun k => if k = 0 then 1 else if k = 1 then 2 e
   decide +kernel
 
 end Gwcs.Builders
+
+namespace Gwcs.Builders
+open Gwcs.Remap
+
+/-- **cd_form_from_any_card.** One CD card anywhere in the matrix (not only `CD1_1`) makes the header a CD header: that element is read
+from its card and every element without a card is zero - on the diagonal too. -/
+theorem cd_form_from_any_card (cd pc : List Card) (c : Card) (hc : c ∈ cd) :
+    hasCD cd = true ∧ ∀ i j, cd.find? (fun c => c.1 == i && c.2.1 == j) = none → headerMatrix cd pc i j = 0 := by
+  have h : hasCD cd = true := by
+    cases cd with
+    | nil => simp at hc
+    | cons a l => simp [hasCD]
+  refine ⟨h, ?_⟩
+  intro i j hnone
+  simp [headerMatrix, h, readM, hnone]
+
+/-- **pc_form_defaults.** Without any CD card the PC cards count and a missing element is the unit-matrix element. -/
+theorem pc_form_defaults (pc : List Card) (i j : Nat) (hnone : pc.find? (fun c => c.1 == i && c.2.1 == j) = none) :
+    headerMatrix [] pc i j = if i = j then 1 else 0 := by
+  simp [headerMatrix, hasCD, readM, hnone]
+
+-- non-vacuity (the header of finding D44): a 90 degree rotation written as CD1_2 and CD2_1 only
+example : (headerMatrix [(1, 2, -1), (2, 1, 1)] [] 1 1, headerMatrix [(1, 2, -1), (2, 1, 1)] [] 1 2,
+           headerMatrix [(1, 2, -1), (2, 1, 1)] [] 2 1, headerMatrix [(1, 2, -1), (2, 1, 1)] [] 2 2) = (0, -1, 1, 0) := by decide +kernel
+
+end Gwcs.Builders
